@@ -391,31 +391,28 @@ theorem regular_set_membership_eq_ref (s : List Clause)
     simp [contains]
 
 /-- **a comma-joined specifier set of any length of single-range clauses** — every operator but `!=` and `!=V.*`:
-ordered comparisons, `==`, `~=`, `==V.*` — over literals without local label (wildcard literals final): no
-regularity between the literals is needed (`>=1.2, ==1.2.*`, `~=1.2, <1.2.5` are covered).  `parse_constraint`'s
-left-to-right `intersect` is defined and its membership equals the reference conjunction on candidates regular for
-the ends of the clauses' ranges. -/
+ordered comparisons, `==` (local labels included), `~=`, `==V.*` (wildcard literals final) — **on every candidate
+that is regular for each literal** (equal to it, or of another release: the "exact-literal" / "other-release"
+disjuncts of the guard).  Nothing is asked of the literals among themselves, nor of the candidate against the
+derived range ends (`~=`'s upper end, the wildcard's `.dev0` ends): an inclusive lower end and an exclusive upper end
+are plain comparisons on every candidate (`VRange.allowsLo_incl`, `VRange.allowsHi_excl`).  `parse_constraint`'s
+left-to-right `intersect` is defined and its membership equals the reference conjunction.  The complement — a
+candidate that is a pre/post/dev/local sibling of some literal — is the known class `sibling-of-another-literal`
+(`counterexample_sibling_of_another_literal`). -/
 theorem range_set_membership_eq_ref (first : Clause) (rest : List Clause)
     (hok : ∀ c ∈ first :: rest, ClauseOk c.op c.lit ∧ (c.op = .eqStar → c.lit.isFinal = true) ∧
-      c.op ≠ .ne ∧ c.op ≠ .neStar ∧ c.lit.loc = none)
-    (v : Version) (hv : v.wf = true) (hreg : Regular (setBounds (first :: rest)) v) :
+      c.op ≠ .ne ∧ c.op ≠ .neStar)
+    (v : Version) (hv : v.wf = true) (hreg : ∀ c ∈ first :: rest, Reg1 v c.lit) :
     ∃ r, setVC (first :: rest) = .ok r ∧ r.allows v = .ok (contains (first :: rest) v) := by
   let mem : Clause → RC := fun d => clauseMember d.op d.lit
   have hok' : ∀ c ∈ first :: rest, ClauseOk' c.op c.lit := fun c hc =>
     ⟨(hok c hc).1.1, (hok c hc).1.2.1, (hok c hc).1.2.2, fun h => by
       rcases h with h | h
       · exact (hok c hc).2.1 h
-      · exact absurd h (hok c hc).2.2.2.1⟩
-  have spec : ∀ c ∈ first :: rest, clauseVC c.op c.lit = .ok (.single (mem c)) ∧ (mem c).WF ∧
-      (∀ e ∈ (mem c).bounds, e ∈ setBounds (first :: rest)) ∧ ∀ e ∈ clauseBounds c.op c.lit, e.loc = none := by
-    intro c hc
-    obtain ⟨s1, s2, s3, s4⟩ := clauseMember_spec c.op c.lit (hok' c hc) ⟨(hok c hc).2.2.1, (hok c hc).2.2.2.1⟩
-      (hok c hc).2.2.2.2
-    exact ⟨s1, s2, fun e he => List.mem_flatMap.2 ⟨c, hc, s3 e he⟩, s4⟩
-  have hL : ∀ e ∈ setBounds (first :: rest), e.loc = none := by
-    intro e he
-    obtain ⟨c, hc, hce⟩ := List.mem_flatMap.1 he
-    exact (spec c hc).2.2.2 e hce
+      · exact absurd h (hok c hc).2.2.2⟩
+  have spec : ∀ c ∈ first :: rest, clauseVC c.op c.lit = .ok (.single (mem c)) ∧ (mem c).WF ∧ (mem c).OKat v ∧
+      (mem c).RngNoLocal := fun c hc =>
+    clauseMember_at c.op c.lit (hok' c hc) ⟨(hok c hc).2.2.1, (hok c hc).2.2.2⟩ v (hreg c hc)
   have sem : ∀ d ∈ first :: rest, (mem d).allows v = d.contains v := by
     intro d hd
     have hx := (spec d hd).1
@@ -424,29 +421,24 @@ theorem range_set_membership_eq_ref (first : Clause) (rest : List Clause)
       rw [h1] at hx; rw [hx] at hy; cases hy
       cases d; simp only at h1; subst h1
       simpa [VC.allows] using ay
-    · have hlit : d.lit ∈ setBounds (first :: rest) := List.mem_flatMap.2 ⟨d, hd, by
-        have := (hok d hd).2.2.2.1
-        cases hop : d.op <;> simp_all [clauseBounds]⟩
-      obtain ⟨y, hy, ay⟩ := clause_membership_eq_ref d.op d.lit v (hok d hd).1 ⟨h1, (hok d hd).2.2.2.1⟩ hv
-        (hreg.reg1 hlit)
+    · obtain ⟨y, hy, ay⟩ := clause_membership_eq_ref d.op d.lit v (hok d hd).1 ⟨h1, (hok d hd).2.2.2⟩ hv
+        (hreg d hd)
       rw [hx] at hy; cases hy
       simpa [VC.allows] using ay
   have hf := spec first (by simp)
-  obtain ⟨r, hr1, hr2⟩ := foldIntersect_exact (setBounds (first :: rest)) hL v hv (fun e he => hreg.reg1 he)
-    (rest.map mem) (.single (mem first)) ((mem first).allows v) trivial
-    (by intro c hc; simp [VC.flatten] at hc; subst hc; exact hf.2.1)
-    (by intro e he; exact hf.2.2.1 e (by simpa [VC.bounds] using he))
-    rfl
+  obtain ⟨r, hr1, hr2, hr3⟩ := foldIntersect_at v hv (rest.map mem) (.single (mem first)) ((mem first).allows v) trivial
+    (by intro c hc; simp [VC.flatten] at hc; subst hc; exact hf.2)
+    (by simp [VC.allowsPlain, VC.flatten])
     (by intro n hn
         obtain ⟨c, hc, rfl⟩ := List.mem_map.1 hn
-        exact ⟨(spec c (by simp [hc])).2.1, (spec c (by simp [hc])).2.2.1⟩)
+        exact (spec c (by simp [hc])).2)
   refine ⟨r, ?_, ?_⟩
   · have e1 : setVC (first :: rest) =
         rest.foldlM (fun acc d => do VC.intersect acc (← clauseVC d.op d.lit)) (.single (mem first)) := by
       simp only [setVC, hf.1]; rfl
     rw [e1, foldClauses_members rest _ (fun d hd => (spec d (by simp [hd])).1)]
     exact hr1
-  · rw [hr2, sem first (by simp)]
+  · rw [VC.allows_of_notUnion r v hr2, hr3, sem first (by simp)]
     congr 1
     simp only [contains, List.all_cons, List.all_map]
     congr 1
@@ -456,14 +448,37 @@ theorem range_set_membership_eq_ref (first : Clause) (rest : List Clause)
     · intro h c hc; rw [← sem c (by simp [hc])]; exact h c hc
     · intro h c hc; rw [sem c (by simp [hc])]; exact h c hc
 
-/-- the hypotheses are satisfiable: `>=1.2, ==1.2.*, ~=1.2.3` (the ends `1.2`, `1.2.dev0`, `1.2.3` share releases
-without being equal) on the candidate `1.4.dev0+l` -/
+/-- the hypotheses are satisfiable: `>=1.2, ==1.2.*, ~=1.2.3, ==1.3rc1` on the candidate `1.3rc1` — equal to one
+literal, of another release than the others, and a pre-release sibling of the derived end `1.3` of `~=1.2.3` -/
 example : let s : List Clause := [⟨.ge, mk' 0 [1, 2] none none none none⟩, ⟨.eqStar, mk' 0 [1, 2] none none none none⟩,
-      ⟨.compat, mk' 0 [1, 2, 3] none none none none⟩]
-    Regular (setBounds s) (mk' 0 [1, 4] none none (some ⟨.dev, 0⟩) (some ["l"])) ∧
-    contains s (mk' 0 [1, 4] none none (some ⟨.dev, 0⟩) (some ["l"])) = false := by
+      ⟨.compat, mk' 0 [1, 2, 3] none none none none⟩, ⟨.eq, mk' 0 [1, 3] (some ⟨.rc, 1⟩) none none none⟩]
+    (∀ c ∈ s, Reg1 (mk' 0 [1, 3] (some ⟨.rc, 1⟩) none none none) c.lit) ∧
+    contains s (mk' 0 [1, 3] (some ⟨.rc, 1⟩) none none none) = false := by
   intro s
-  exact ⟨Regular.of_check (by decide), by decide⟩
+  refine ⟨?_, by decide⟩
+  intro c hc
+  simp only [s, List.mem_cons, List.mem_nil_iff, or_false] at hc
+  rcases hc with rfl | rfl | rfl | rfl
+  · exact Or.inr (by decide)
+  · exact Or.inr (by decide)
+  · exact Or.inr (by decide)
+  · exact Or.inl rfl
+
+/-- the complement of the hypothesis, known class `sibling-of-another-literal`: `>1.0, >=1.0.post1` at the
+candidate `1.0.post1` (equal to the second literal, a post-release sibling of the first).  `intersect` keeps the
+greater lower bound `>=1.0.post1` and loses the PEP 440 rule that `>1.0` excludes the post-releases of `1.0`: the
+model (like poetry-core) admits the candidate, the reference rejects it. -/
+theorem counterexample_sibling_of_another_literal :
+    let V := mk' 0 [1, 0] none none none none
+    let W := mk' 0 [1, 0] none (some ⟨.post, 1⟩) none none
+    setVC [⟨.gt, V⟩, ⟨.ge, W⟩] = .ok (.single (.rng ⟨some W, none, true, false⟩)) ∧
+    (VC.single (.rng ⟨some W, none, true, false⟩)).allows W = .ok true ∧
+    contains [⟨.gt, V⟩, ⟨.ge, W⟩] W = false ∧ Reg1 W W ∧ ¬ Reg1 W V := by
+  intro V W
+  refine ⟨by decide, by decide, by decide, Or.inl rfl, ?_⟩
+  rintro (h | h)
+  · exact absurd ((vk_eq_iff _ _).1 h) (by decide)
+  · exact h (by decide)
 
 /-- `~=1.2, !=1.3.*, !=1.2.5, >=1.2` -/
 private def exSet : List Clause :=
